@@ -69,7 +69,12 @@ class Poly:
         """max/min of polynomials as an opaque atom that folds once its arguments are constant"""
         args = [lift(a) for a in args]
         if all(a.is_const() for a in args):
-            return Poly.const({"max": max, "min": min}[name](a.value() for a in args))
+            vals = [a.value() for a in args]
+            if name in ("floordiv", "mod"):
+                if vals[1] == 0:
+                    raise ZeroDivisionError(f"{name} by zero in a size expression")
+                return Poly.const(vals[0] // vals[1] if name == "floordiv" else vals[0] % vals[1])
+            return Poly.const({"max": max, "min": min}[name](vals))
         sym = f"{name}({', '.join(repr(a) for a in args)})"
         FUNC_ATOMS[sym] = (name, args)
         return Poly.sym(sym)
